@@ -289,31 +289,58 @@ def r4(ctx, retsets):
         ctx.check(bool(outs) and all(c == exp for c in found), "C06.R4", "pfx_table_copy_cb[socket%sown]" % ("=" if same else "!="),
                   "%s:%d" % (cb.relfile, cb.line), "effects %s, expected %s" % (found, exp),
                   key="C06.R4:pfx_copy_cb:%s" % same)
-    # the error flag of the walk is a latch: a failed add raises it, nothing lowers it, a successful add leaves it alone
-    ERRC = ("fld", ("arg", 1), "copy_cb_args.error")
+    # the walk's failure marker is a latch: a failed add sets it, nothing resets it, a successful add leaves it alone.  Which field
+    # of the callback's argument block carries it and how failure is encoded (a flag, a kept return code) is read from the code.
+    fn = pdb.fn("pfx_table_copy_except_socket")
+    lfields = sorted({vf.store_field(i) for i in cb.all_insts() if i.op == "store" and vf.root_of(vf.expr(cb, i["ptr"])) == ("arg", 1) and vf.store_field(i)})
+    if len(lfields) != 1:
+        raise AnalysisBroken("pfx_table_copy_cb: expected exactly one field of the argument block to be written (the failure marker), found %s" % lfields)
+    LFIELD = lfields[0]
+    ERRC = ("fld", ("arg", 1), LFIELD)
+    inits = [i for i in fn.all_insts() if i.op == "store" and vf.store_field(i) == LFIELD and vf.expr(fn, i["val"])[0] == "c"]
+    if not inits:
+        raise AnalysisBroken("pfx_table_copy_except_socket: the initial value of %s was not found" % LFIELD)
+    V0 = vf.expr(fn, inits[0]["val"])[1]
     succ = pdb.enum_value("PFX_SUCCESS")
     fails = sorted(set((retsets.get((pdb.fn("pfx_table_add").unit, "pfx_table_add")) or ())) - {succ}) if retsets.get((pdb.fn("pfx_table_add").unit, "pfx_table_add")) != "TOP" else [pdb.enum_value("PFX_ERROR")]
-    for prior in (0, 1):
-        for res in [succ] + fails:
-            def oracle(inst, pred, a, b, E):
-                if {a, b} == {sock_a, sock_r} and pred in ("eq", "ne"):
-                    return pred == "ne"
-                return None
 
-            def classify(inst, E, st, res=res):
-                if inst.op == "call" and inst.callee == "pfx_table_add":
-                    return [([], {inst.ref: flow.av_in(res)})]
-                return None
-            outs, fl = es.count_effects(cb, pdb, classify, None, oracle=oracle, init=None, pinned=lambda pe: pe == ERRC,
-                                        cell={ERRC: prior})
-            after = sorted({str(flow.av_single(o["facts"].get(("M", ERRC)))) for o in outs})
-            want = "1" if (prior == 1 or res != succ) else "0"
-            ctx.check(bool(outs) and after == [want], "C06.R4", "pfx_table_copy_cb:error-latch[error before=%d,add returns %d]" % (prior, res),
-                      "%s:%d" % (cb.relfile, cb.line), "args.error afterwards: %s (expected %s)" % (after, want),
-                      key="C06.R4:pfx_copy_cb:latch:%d:%d" % (prior, res))
+    def latch_after(prior, res):
+        def oracle(inst, pred, a, b, E):
+            if {a, b} == {sock_a, sock_r} and pred in ("eq", "ne"):
+                return pred == "ne"
+            return None
+
+        def classify(inst, E, st, res=res):
+            if inst.op == "call" and inst.callee == "pfx_table_add":
+                return [([], {inst.ref: flow.av_in(res)})]
+            return None
+        outs, fl = es.count_effects(cb, pdb, classify, None, oracle=oracle, init=None, pinned=lambda pe: pe == ERRC, cell={ERRC: prior})
+        return sorted({flow.av_single(o["facts"].get(("M", ERRC))) for o in outs}, key=str)
+    FAILED = None
+    for res in fails:
+        after = latch_after(V0, res)
+        good = len(after) == 1 and after[0] is not None and after[0] != V0
+        if good and FAILED is None:
+            FAILED = after[0]
+        ctx.check(good, "C06.R4", "pfx_table_copy_cb:error-latch[error before=0,add returns %d]" % res, "%s:%d" % (cb.relfile, cb.line),
+                  "%s afterwards: %s (initially %s; expected: marked as failed)" % (LFIELD, after, V0), key="C06.R4:pfx_copy_cb:latch:0:%d" % res)
+    after = latch_after(V0, succ)
+    ctx.check(after == [V0], "C06.R4", "pfx_table_copy_cb:error-latch[error before=0,add returns %d]" % succ, "%s:%d" % (cb.relfile, cb.line),
+              "%s afterwards: %s (expected unchanged %s)" % (LFIELD, after, V0), key="C06.R4:pfx_copy_cb:latch:0:%d" % succ)
+    if FAILED is not None:
+        for res in [succ] + fails:
+            after = latch_after(FAILED, res)
+            ctx.check(bool(after) and all(a is not None and a != V0 for a in after), "C06.R4", "pfx_table_copy_cb:error-latch[error before=1,add returns %d]" % res,
+                      "%s:%d" % (cb.relfile, cb.line), "%s afterwards: %s (a failure recorded earlier must stay recorded, whatever this add returns)" % (LFIELD, after),
+                      key="C06.R4:pfx_copy_cb:latch:1:%d" % res)
+    else:
+        FAILED = 1
     fn = pdb.fn("pfx_table_copy_except_socket")
     ctx.touch(fn)
     walks = fn.calls(("pfx_table_for_each_ipv4_record", "pfx_table_for_each_ipv6_record"))
+    if not walks:
+        raise AnalysisBroken("pfx_table_copy_except_socket no longer walks the source with pfx_table_for_each_ipv4_record / _ipv6_record: the rules on "
+                             "what is copied and how a failed copy is reported are written for these two walks")
     fams = {w.callee for w in walks}
     good = len(fams) == 2
     for w in walks:
@@ -329,13 +356,13 @@ def r4(ctx, retsets):
     # error propagation: an error raised by the callback during either walk makes the copy fail
     if walks:
         ar = vf.expr(fn, walks[0].args[2])
-        ERR = ("fld", ar, "copy_cb_args.error")
+        ERR = ("fld", ar, LFIELD)
         for wi, w in enumerate(sorted(walks, key=lambda x: x.line)):
             def classify3(inst, E, st, w=w):
                 if inst.op == "call" and inst is w:
-                    return [(["=err:1"], {("M", ERR): flow.av_in(1)}), ([], {("M", ERR): flow.av_in(0)})]
+                    return [(["=err:1"], {("M", ERR): flow.av_in(FAILED)}), ([], {("M", ERR): flow.av_in(V0)})]
                 if inst.op == "call" and inst.callee in ("pfx_table_for_each_ipv4_record", "pfx_table_for_each_ipv6_record"):
-                    return [([], {("M", ERR): flow.av_in(0)})] if st.get("err") != "1" else None
+                    return [([], {("M", ERR): flow.av_in(V0)})] if st.get("err") != "1" else None
                 return None
             outs3, fl3 = es.count_effects(fn, pdb, classify3, retsets)
             sel = [o for o in outs3 if o["counts"].get("err") == "1"]
@@ -343,7 +370,7 @@ def r4(ctx, retsets):
             ctx.check(good3, "C06.R4", "pfx_table_copy_except_socket:error-after-walk%d" % (wi + 1), w.loc(),
                       "a record that could not be copied during this walk makes the copy return PFX_ERROR (returns: %s)" % sorted({str(flow.av_single(o["ret"])) for o in sel}),
                       key="C06.R4:pfx_copy:error-walk%d" % (wi + 1))
-    errs = [i for i in cb.all_insts() if i.op == "store" and vf.store_field(i) == "copy_cb_args.error"]
+    errs = [i for i in cb.all_insts() if i.op == "store" and vf.store_field(i) == LFIELD]
     rs = retsets.get((fn.unit, fn.name))
     ctx.check(bool(errs) and rs != "TOP" and pdb.enum_value("PFX_ERROR") in (rs or ()), "C06.R4", "pfx_table_copy_except_socket:error",
               "%s:%d" % (fn.relfile, fn.line), "failed add sets args.error and the copy can return PFX_ERROR", key="C06.R4:pfx_copy:error")
